@@ -72,7 +72,7 @@ func TestC04(t *testing.T) {
 	}
 	inMethods := []string{"ACK", "BYE", "INVITE", "UPDATE", "INFO", "PRACK", "MESSAGE", "REFER", "OPTIONS", "NOTIFY", "SUBSCRIBE"}
 
-	rcheck(t, "histories", V.N(300, 1000), func(rt *rapid.T) {
+	rcheck(t, "histories", V.N(300, 2500), func(rt *rapid.T) {
 		s := svcs[rapid.IntRange(0, len(svcs)-1).Draw(rt, "instance")]
 		l := s.in.cfg.Listens[0]
 		nb := len(l.Backends)
